@@ -31,7 +31,7 @@ def class_kit(cls):
         return m.Diagram, m.Swap, lambda i: m.Ty(m.Ob("w%d" % i, z=(i % 3) - 1))
     if cls == "tensor":
         from discopy import tensor as m
-        primes = [2, 3, 5, 7, 11, 13, 17, 19]
+        primes = [2, 3, 5, 7, 11, 13, 17, 19, 23, 29, 31, 37]
         return m.Diagram, m.Swap, lambda i: m.Dim(primes[i])
     if cls == "circuit":
         from discopy.quantum import circuit as m
